@@ -8,7 +8,9 @@
  4 oracle      independent DOM of the same XML (libxml2 tree API): every reported XPath selects exactly one element,
                line / columns inside that element's text;  fault injection at every token position of every block of
                the seed models (seven fault kinds x layouts): >= 1 error inside the faulted block, all errors inside it
-               for non-select labels, exact range for an undeclared identifier
+               for non-select labels, exact range for an undeclared identifier.  The queries of the <queries> element are
+               blocks too: after the model is read every stored query goes through PropertyBuilder::parse(formula,
+               location, options), the way a verifier runs them, and its diagnostics are judged like all others
 """
 import json
 import os
@@ -214,12 +216,20 @@ def crash_site(err):
     return m.group(1).replace(" ", "_") if m else "unknown"
 
 
+def opcode(d):
+    return ("XFT" if d.get("entry") == "file" else "XT") + ("Q" if d.get("queries") else "")
+
+
+ENTRY_Q = ("parse_XML_buffer(xml, Document*, newxta=true), then TigaPropertyBuilder::parse(q.formula, q.location, q.options) for every "
+           "query of Document::get_queries()")
+
+
 def run_batch(exe, ops):
     """One harness process for many ops; a crash (signal, sanitizer report, glibcxx assertion) is recorded for the op that
     caused it and the batch continues with the next op in a new process.  Returns (result lines, [(index, rc, stderr)])."""
     lines, start, crashes = [], 0, []
     while start < len(ops):
-        stdin = "".join("%s 1 %s\n" % ("XFT" if d.get("entry") == "file" else "XT", hexs(x)) for d, x in ops[start:])
+        stdin = "".join("%s 1 %s\n" % (opcode(d), hexs(x)) for d, x in ops[start:])
         rc, out, err, dt = core.run_exe(exe, [], stdin_text=stdin, timeout=1500, env={"VERIF_C06_DIR": core.CACHE})
         got = [l for l in out.split("\n") if l.strip()][:len(ops) - start]
         lines += got
@@ -241,8 +251,8 @@ def fault_ops(ctx):
         blocks = M.blocks_of(m)
         # the layouts alone must be neutral: no diagnostics at all
         for li, layout in enumerate(M.LAYOUTS):
-            ov = {b.key: M.relayout(b.text, layout, li) for b in blocks}
-            ops.append(({"seed": mi, "what": "layout-only", "layout": layout}, M.render(m, ov)))
+            ov = {b.key: M.relayout(b.text, layout, li, b.kind) for b in blocks}
+            ops.append(({"seed": mi, "what": "layout-only", "layout": layout, "queries": True}, M.render(m, ov)))
         # structural faults: diagnostics attached to elements; only the per-diagnostic oracle applies
         # each in every rendering of the XML layer, through the buffer and through the file entry point
         for desc, x, expect in M.structural_variants(m, M.render(m)):
@@ -255,7 +265,7 @@ def fault_ops(ctx):
                 ops.append(({"seed": mi, "what": "layout-only", "layout": "xml-" + layer, "entry": entry}, M.xml_layer(M.render(m), layer)))
         for bi, blk in enumerate(blocks):
             for li, layout in enumerate(M.LAYOUTS):
-                text0 = M.relayout(blk.text, layout, bi)
+                text0 = M.relayout(blk.text, layout, bi, blk.kind)
                 toks = M.tokenize(text0)
                 for i in range(len(toks) + 1):
                     for ki, kind in enumerate(M.FAULT_KINDS):
@@ -265,6 +275,8 @@ def fault_ops(ctx):
                             d = {"seed": mi, "what": "fault", "kind": kind, "layout": layout, "block": blk.key, "canon": blk.canon,
                                  "block_kind": blk.kind, "label_kind": blk.label_kind, "token": i, "text": t2}
                             d.update(info)
+                            if blk.kind == "query":
+                                d["queries"] = True      # the fault only shows when the stored queries are parsed
                             # every fifth faulted block is written as a CDATA section (the same characters reach the grammar)
                             # (not combined with the CRLF layout: inside a CDATA section libxml2's reader API keeps a raw CR that its tree API,
                             # which the oracle uses, drops -- the two views of "the element's text" differ there for reasons outside libutap)
@@ -322,7 +334,8 @@ def run_faults(ctx, exe, exe_asan=None):
         cov["asan_sample_crashes"] = len(crashes_a)
     res = [json.loads(l) for l in lines[:len(ops)]]
     stats = {"ops": len(ops), "benign": 0, "faults_with_errors": 0, "diags": 0, "diags_oracle_ok": 0, "by_kind": {}, "by_layout": {},
-             "by_block_kind": {}, "messages": {}, "typechecker_diags": 0, "exact_ranges_checked": 0}
+             "by_block_kind": {}, "messages": {}, "typechecker_diags": 0, "exact_ranges_checked": 0, "query_parses": 0,
+             "query_parse_exceptions": 0}
     path_cases = {}
     lexpred = []
     for (d, xml), r in zip(ops, res):
@@ -330,6 +343,9 @@ def run_faults(ctx, exe, exe_asan=None):
         errs = [x for x in r["diags"] if x["k"] == "E"]
         if r.get("crashed"):
             continue
+        stats["query_parses"] += r.get("nq", 0)
+        if r.get("qexc"):
+            stats["query_parse_exceptions"] += 1
         if r["exc"] and what == "structural":
             stats["structural_exceptions"] = stats.get("structural_exceptions", 0) + 1
         elif r["exc"]:
@@ -351,10 +367,12 @@ def run_faults(ctx, exe, exe_asan=None):
                 if what == "witness:string-newline":
                     key = "string-newline"
                 ctx.finding(key, "diagnostic %r at %s %d:%d-%d:%d: %s" % (x["msg"], x["path"], x["sl"], x["sc"], x["el"], x["ec"], x["oracle"]),
-                            {"op": d, "xml_hex": hexs(xml), "diagnostic": x, "entry": "parse_XML_buffer(xml, Document*, newxta=true)"})
+                            {"op": d, "xml_hex": hexs(xml), "diagnostic": x,
+                             "entry": ENTRY_Q if d.get("queries") else "parse_XML_buffer(xml, Document*, newxta=true)"})
         if what == "layout-only":
-            if r["diags"]:
-                ctx.finding("layout-not-neutral:" + d["layout"], "a layout-only rewrite (%s) produced diagnostics: %s" % (d["layout"], r["diags"][0]["msg"]),
+            if r["diags"] or r.get("qexc"):
+                ctx.finding("layout-not-neutral:" + d["layout"], "a layout-only rewrite (%s) produced diagnostics: %s" % (
+                    d["layout"], r["diags"][0]["msg"] if r["diags"] else "a query parse ended in " + r["qexc"]),
                             {"op": d, "xml_hex": hexs(xml), "result": r})
             continue
         if what in ("witness:lsc", "structural"):
@@ -388,7 +406,7 @@ def run_faults(ctx, exe, exe_asan=None):
         stats["by_block_kind"][bk] = stats["by_block_kind"].get(bk, 0) + 1
         inside = [x for x in errs if x.get("canon") == d["canon"]]
         outside = [x for x in errs if x.get("canon") != d["canon"]]
-        replay = {"op": d, "xml_hex": hexs(xml), "errors": errs, "entry": "parse_XML_buffer(xml, Document*, newxta=true)"}
+        replay = {"op": d, "xml_hex": hexs(xml), "errors": errs, "entry": ENTRY_Q if d.get("queries") else "parse_XML_buffer(xml, Document*, newxta=true)"}
         if not inside and what == "fault":
             ctx.finding("unlocated:%s:%s" % (kind, bk), "a single %s fault in %s produced errors only elsewhere: %s at %s"
                         % (kind, d["canon"], outside[0]["msg"], outside[0]["path"]), replay)
@@ -501,7 +519,7 @@ def replay(ctx, path):
     b = core.build_repo("asan")
     exe = core.build_harness(b, "c06", ["c06.cpp"])
     if "xml_hex" in rep:
-        line = "%s 1 %s\n" % ("XFT" if rep.get("op", {}).get("entry") == "file" else "XT", rep["xml_hex"])
+        line = "%s 1 %s\n" % (opcode(rep.get("op", {})), rep["xml_hex"])
     else:
         line = "L %d %d %s\n" % (rep.get("newxta", 1), rep.get("part", 1), rep["text_hex"])
     rc, out, err, _ = core.run_exe(exe, [], stdin_text=line, env={"VERIF_C06_DIR": core.CACHE})
